@@ -1,4 +1,5 @@
 import Qvnt.Props.C01
+import Qvnt.Props.Code.C01
 open Qvnt
 #print axioms C01_one_qubit_kernels
 #print axioms C01_two_qubit_kernels
@@ -15,3 +16,10 @@ open Qvnt
 #print axioms C01_matrix_linear
 #print axioms C01_unitary
 #print axioms C01_norm
+#print axioms C01_code_one_qubit
+#print axioms C01_code_two_qubit
+#print axioms C01_code_multi_bit
+#print axioms C01_code_rot1
+#print axioms C01_code_two
+#print axioms C01_code_h
+#print axioms C01_code_u3
